@@ -89,26 +89,28 @@ DefSeq == ndJsonDeserialize(IOEnv.DEFS)
 DefById(id) == DefSeq[CHOOSE k \in DOMAIN DefSeq : DefSeq[k].id = id]
 VARIABLES l, bad
 hvars == <<l, bad>>
-NameLike(t) == t \in UNION {UNION {NamesOf(it) : it \in LeavesOf(lv)} : lv \in AllLevels(DefById(Rec[l].def))}
+DefNames(dd) == UNION {UNION {NamesOf(it) : it \in LeavesOf(lv)} : lv \in AllLevels(dd)}
 Problems(r) ==
-  LET lvl == LevelAt(DefById(r.def), r.path)
+  LET dd == DefById(r.def)      \* (looked up once per record)
+      lvl == LevelAt(dd, r.path)
+      names == DefNames(dd)
       items == RangeOf(r.items)  all == RangeOf(r.all) IN
   [missing   |-> (MustList(lvl) \ (IF r.kind = "help" THEN items ELSE all))
                  \* a usage line supplied by the program (usage / with_usage) is what help shows
                  \cup (IF r.kind = "help" /\ "usage_token" \in DOMAIN lvl /\ lvl.usage_token \notin all THEN {lvl.usage_token} ELSE {}),
    \* (a document covers every level at once: a hidden item's name may be the name of a visible item of another level)
    forbidden |-> IF r.kind = "help" THEN MustNotMention(lvl) \cap all
-                 ELSE (MustNotMention(lvl) \cap all)
-                      \ UNION {MustList(LevelAt(DefById(r.def), q)) : q \in VisiblePaths(DefById(r.def))},
-   foreign   |-> IF r.kind = "help" THEN {t \in items : NameLike(t)} \ MayList(lvl) ELSE {},
+                 ELSE LET m == MustNotMention(lvl) \cap all IN
+                      IF m = {} THEN {} ELSE m \ UNION {MustList(LevelAt(dd, q)) : q \in VisiblePaths(dd)},
+   foreign   |-> IF r.kind = "help" THEN (items \cap names) \ MayList(lvl) ELSE {},
    \* the usage line is exactly the one Usage.tla computes from the definition (a line supplied by the program aside)
    usage     |-> IF r.kind = "help" /\ "usage" \in DOMAIN r /\ "usage_token" \notin DOMAIN lvl /\ r.usage # UsageLineS(lvl, r.path, "")
                  THEN UsageLine(lvl, r.path) ELSE "",
    \* the generated documentation shows the same usage line for every command level (markdown and html carry it
    \* literally, a manpage as its SYNOPSIS; a line supplied by the program aside)
    docusage  |-> IF r.kind \in {"markdown", "html", "manpage"} /\ "usages" \in DOMAIN r
-                 THEN {UsageLineS(LevelAt(DefById(r.def), p), p, "") :
-                         p \in {q \in VisiblePaths(DefById(r.def)) : "usage_token" \notin DOMAIN LevelAt(DefById(r.def), q)}} \ RangeOf(r.usages)
+                 THEN {UsageLineS(LevelAt(dd, p), p, "") :
+                         p \in {q \in VisiblePaths(dd) : "usage_token" \notin DOMAIN LevelAt(dd, q)}} \ RangeOf(r.usages)
                  ELSE {},
    misplaced |-> IF r.kind = "help" /\ "sections" \in DOMAIN r THEN Misplaced(lvl, r) ELSE {},
    order     |-> IF r.kind # "help" THEN TRUE
